@@ -508,6 +508,37 @@ def c113(ctx):
         ctx.order_chain(R, f, [("comparator = %s" % d, cw), ("heapify", hp)])
 
 
+def _assert_switch(f, bidx):
+    """The switch that ends block `bidx` has an arm that does nothing but panic (assert!, unreachable!, expect)."""
+    for _lab, s in f.blocks[bidx].succs:
+        t = f.blocks[s].term
+        if t["t"] == "call" and t.get("to") is None and re.search(r"panicking::|panic_fmt|panic_display|assert_failed", callee_skey(t) or t.get("callee") or ""):
+            return True
+    return False
+
+
+def _key_none_edges(f):
+    """(block, label) edges taken exactly when the wrapped cursor's key() answered None: `match self.key() { None => .. }`,
+    `while let Some(..) = self.key()`, `if self.key().is_none()` / `is_some()`.  key() is a pure read, so on such an edge there is no
+    entry under the cursor until the next step."""
+    out = set()
+    iskey = lambda s_: s_["k"] == "call" and re.search(r"Cursor>::key$|::key$", s_["callee"])
+    for b in P.switch_blocks(f):
+        d = b.term["discr"]
+        if d.get("k") not in ("copy", "move"):
+            continue
+        for (_p, kind, p_) in P.defs(f).of(d["pl"]["l"]):
+            if kind == "assign" and p_["rv"]["r"] == "discr":
+                if any(iskey(s_) for s_ in P.origins(f, {"k": "copy", "pl": {"l": p_["rv"]["pl"]["l"], "p": []}})):
+                    out.add((b.idx, "sw:0"))
+            elif kind == "call":
+                ck = callee_skey(p_) or ""
+                m_ = re.search(r"Option::(is_none|is_some)$", ck)
+                if m_ and p_["args"] and any(iskey(s_) for s_ in P.origins(f, p_["args"][0])):
+                    out.add((b.idx, "sw:1" if m_.group(1) == "is_none" else "sw:0"))
+    return out
+
+
 def c114(ctx):
     R = "C11.4"
     ctx.declare(R, "pruning cursor: every movement filters by timestamp and recognises tombstones")
@@ -522,11 +553,33 @@ def c114(ctx):
                 if rv.get("r") == "bin" and rv["op"] in ("Le", "Lt", "Ge", "Gt"):
                     na, nb = K.src_names(f, rv["a"]), K.src_names(f, rv["b"])
                     if ".timestamp" in na and ".timestamp" in nb:
-                        cmps.append(((b.idx, i), rv["op"]))
+                        # normalise to `entry OP snapshot`: the snapshot side is the cursor's own field
+                        snap = lambda o: any(s_["k"] == "field" and s_["f"] == "timestamp" and s_.get("owner", "").endswith("PruningCursor") for s_ in P.origins(f, o))
+                        op = rv["op"]
+                        if snap(rv["a"]) and not snap(rv["b"]):
+                            op = {"Le": "Ge", "Ge": "Le", "Lt": "Gt", "Gt": "Lt"}[op]
+                        cmps.append(((b.idx, i), op))
         ctx.check(R, f, "timestamp-filter", bool(cmps) and all(op in ("Le", "Gt") for _p, op in cmps),
                   "%s compares kr.timestamp <= self.timestamp (%d sites)" % (m, len(cmps)), "%s no longer filters entries by `timestamp <= snapshot`" % m)
         vt = value_tests(f)
         ctx.check(R, f, "tombstone-test", bool(vt), "%s tests value() for tombstones" % m, "%s no longer recognises tombstones" % m)
+        # every entry the cursor treats as a version it may show (its key recorded with set_skip_key) was screened by a
+        # *branch* on `timestamp <= snapshot` after the last step of the wrapped cursor.  The wrapped cursor of a store scan
+        # stands on the live memtable: an entry stepped onto without a test of its own may be a write newer than the
+        # snapshot, whatever the entries before it were.  An assert! on the comparison is not a screen: it aborts the scan.
+        screens = [p_ for p_, _op in cmps if not _assert_switch(f, p_[0])]
+        moves = [pt for name, pt in cursor_calls(f) if name in ("next", "prev", "seek")]
+        ssk = P.call_points(f, r"PruningCursor::set_skip_key$")
+        for p_ in ssk:
+            q = None
+            for mv_ in moves:
+                q = q or P.reach(f, P.after(f, mv_), [p_], avoid=set(screens) | (set(moves) - {mv_}) | set(P.error_points(f)),
+                                 avoid_edges=_key_none_edges(f))
+            ctx.check(R, f, "screened-after-last-step", bool(screens) and q is None,
+                      "%s treats an entry as visible only behind a branch on `timestamp <= snapshot` taken after the last step" % m,
+                      "%s steps the wrapped cursor and then treats the entry it lands on as a visible version without branching on its "
+                      "timestamp: over the live memtable that entry can be a write newer than the snapshot (shown to the scan, or "
+                      "tripping the assertion behind it)" % m, pt=p_, path=q)
     # forward scans (seek and next are siblings): an entry is accepted (set_skip_key, then return without moving on) only
     # after it has been screened against skip_key -- the tombstone arm of the same loop sets skip_key to hide the older
     # versions beneath the tombstone, and only this screen honours it.
